@@ -53,6 +53,15 @@ def cases(tier, seed):
         c = _gen(rng, tier, i)
         c.update({"id": "agree-%d" % i, "kind": "agree", "cost": 30, "timeout": 1500})
         out.append(c)
+    # large high-index spheres (m x beyond the series order: where the coefficient recurrences are started by continued fractions and
+    # their ill-conditioning restarts), many of them, compared near the axis only so that each comparison is cheap
+    rng_hi = rng_for(seed, "c08-hi")
+    for i in range(64 if tier == "quick" else 1200):
+        c = _gen(rng_hi, tier, i)
+        c["m"] = float(rng_hi.uniform(1.5, 2.5)); c["x"] = float(rng_hi.uniform(12, 50)); c["kz"] = float(rng_hi.uniform(-40, 60))
+        c["krho"] = [0.0, float(rng_hi.uniform(0.5, 3)), float(rng_hi.uniform(3, 8))]; c["phi"] = c["phi"][:3]
+        c.update({"id": "agree-hi-%d" % i, "kind": "agree", "cost": 6, "timeout": 1500})
+        out.append(c)
     nz = 60 if tier == "quick" else 1500
     for i in range(nz):
         c = _gen(rng, "thorough", i)
